@@ -142,6 +142,8 @@ def case_pointer(ctx, case):
     want = iso(x, data, abs_t)
     if form == "aux":
         return case_pointer_aux(ctx, case, x, data, target, start, abs_t, want)
+    if form == "region":
+        return case_pointer_region(ctx, case, x, data, target, start)
     if form == "const":
         d = C.Pointer(target, mk(x))
         kw = {}
@@ -180,6 +182,50 @@ def case_pointer(ctx, case):
     else:
         if got[0] != "exc":
             ctx.violation("pointer-accepts-failing-inner", "inner fails (%s) but Pointer returned %r" % (want[1], got[1]), case)
+
+
+def case_pointer_region(ctx, case, x, data, target, start):
+    """a Pointer inside a length-limited region that does not start at offset 0 of the stream: a non-negative target is an absolute
+    offset of the outermost stream, a negative one counts from the end of the region; afterwards the region's stream stands where it stood"""
+    import construct as C
+    for wrapk in ("Prefixed", "FixedSized", "Prefixed>FixedSized"):
+        inner = C.Struct("a" / C.Byte, "v" / C.Pointer(target, mk(x)), "rest" / C.GreedyBytes)
+        if wrapk == "Prefixed":
+            d, head, base = C.Struct("h" / C.Bytes(start), "r" / C.Prefixed(C.Byte, inner), "t" / C.Byte), bytes([0xEE]) * start + bytes([len(data)]), start + 1
+        elif wrapk == "FixedSized":
+            d, head, base = C.Struct("h" / C.Bytes(start), "r" / C.FixedSized(len(data), inner), "t" / C.Byte), bytes([0xEE]) * start, start
+        else:
+            d, head, base = C.Struct("h" / C.Bytes(start), "r" / C.Prefixed(C.Byte, C.Struct("k" / C.Byte, "f" / C.FixedSized(len(data), inner))), "t" / C.Byte), bytes([0xEE]) * start + bytes([len(data) + 1, 0x4b]), start + 2
+        if len(data) < 1 or len(data) > 250:
+            return
+        buf = head + data + b"\x09"
+        # absolute offset of the target in the outermost stream
+        abs_t = target if target >= 0 else base + len(data) + target
+        if abs_t < base or abs_t > base + len(data):
+            continue                # outside the region: not defined here
+        want = iso(x, buf[:base + len(data)], abs_t)
+        ctx.ev()
+        s = TracedStream(buf, pos=0)
+        try:
+            got = ("ok", d.parse_stream(s))
+        except Exception as e:
+            got = ("exc", type(e).__name__)
+        if want[0] != "ok":
+            if got[0] == "ok":
+                ctx.violation("pointer-accepts-failing-inner", "inner fails (%s) inside the region but the parse returned a value" % (want[1],), dict(case, wrap=wrapk))
+            continue
+        if got[0] != "ok":
+            ctx.violation("pointer-in-region-raises:%s:%s" % (wrapk, got[1]), "Pointer(%d, x) inside %s starting at offset %d: parse raised %s" % (target, wrapk, base, got[1]), dict(case, wrap=wrapk))
+            return
+        r = got[1].r if wrapk != "Prefixed>FixedSized" else got[1].r.f
+        if not veq(r.v, want[1]):
+            ctx.violation("pointer-in-region-value:%s" % ("negative" if target < 0 else "absolute"), "Pointer(%d, x) inside %s (region at %d..%d) -> %r, x alone at offset %d -> %r" % (target, wrapk, base, base + len(data), r.v, abs_t, want[1]), dict(case, wrap=wrapk))
+            return
+        if r.a != data[0] or r.rest != data[1:] or got[1].t != 9 or s.pos != len(buf):
+            ctx.violation("pointer-in-region-position", "after the Pointer the region's members read a=%r rest=%r t=%r (stream at %d of %d)" % (r.a, r.rest, got[1].t, s.pos, len(buf)), dict(case, wrap=wrapk))
+            return
+        if start:
+            ctx.nontrivial("pointer-region", case["member"], target, start, wrapk)
 
 
 def case_pointer_aux(ctx, case, x, data, target, start, abs_t, want):
@@ -227,6 +273,56 @@ def case_pointer_aux(ctx, case, x, data, target, start, abs_t, want):
             ctx.violation("pointer-aux-position-after-build", "after build: other stream at %d (was %d), main stream at %d (was %d)" % (aux2.pos, aux_start, main2.pos, start), case)
         elif out[abs_t:abs_t + len(enc)] != enc or out[:abs_t] != data[:abs_t]:
             ctx.violation("pointer-aux-build-target", "bytes at target %d of the other stream are %s, expected %s" % (abs_t, out[abs_t:abs_t + len(enc)].hex(), enc.hex()), case)
+
+
+def foreign_members():
+    """alternatives that give up with an exception that is not a ConstructError (a codec's own error, a lookup in an adapter, a
+    wrong arity): Select moves on to the next alternative after ANY failure except an explicit Error"""
+    import construct as C
+    table = {1: "one", 2: "two"}
+    return {
+        "zlib": C.Prefixed(C.Byte, C.Compressed(C.GreedyBytes, "zlib")),
+        "lookup": C.ExprAdapter(C.Byte, lambda obj, ctx: table[obj], lambda obj, ctx: {v: k for k, v in table.items()}[obj]),
+        "arity": C.NamedTuple("pt", "x y", C.Array(3, C.Byte)),
+        "lambda": C.Struct("n" / C.Byte, "d" / C.Bytes(lambda ctx: 4 // ctx.n)),
+    }
+
+
+def case_select_foreign(ctx, case):
+    import construct as C
+    fm = foreign_members()
+    first = fm[case["first"]]
+    data, off = place(untag(case["data"]), case["offset"]), case["offset"]
+    second = mk(MREC[case["second"]])
+    ctx.ev()
+    s0 = TracedStream(data, pos=off)
+    try:
+        first.parse_stream(s0)
+        return                         # the first alternative parses this input: nothing to observe
+    except C.ConstructError:
+        kindf = "construct"
+    except Exception as e:
+        kindf = type(e).__name__
+    want = iso(MREC[case["second"]], data, off)
+    d = C.Select(first, second)
+    s = TracedStream(data, pos=off)
+    try:
+        got = ("ok", d.parse_stream(s))
+    except Exception as e:
+        got = ("exc", type(e).__name__)
+    if want[0] == "ok":
+        if got[0] != "ok" or not veq(got[1], want[1]):
+            ctx.violation("select-does-not-move-on-after-%s" % ("foreign-exception" if kindf != "construct" else "failure"), "first alternative gives up with %s; the second alone parses to %r; Select -> %r" % (kindf, want[1], got), case)
+        elif s.pos != want[2]:
+            ctx.violation("select-position", "stream at %d after Select, the successful alternative alone ends at %d" % (s.pos, want[2]), case)
+        elif kindf != "construct":
+            ctx.nontrivial("select-foreign", case["first"], case["second"], kindf)
+            ctx.count("alternative_failed_with_foreign_exception")
+    else:
+        if got != ("exc", "SelectError"):
+            ctx.violation("select-no-alternative", "no alternative parses but Select -> %r" % (got,), case)
+        elif s.pos != off:
+            ctx.violation("select-position-after-all-fail", "every alternative failed; stream left at %d, started at %d" % (s.pos, off), case)
 
 
 def case_select(ctx, case):
@@ -468,7 +564,7 @@ def bitprobe_recipes():
     ]
 
 
-KINDS = {"peek": case_peek, "pointer": case_pointer, "select": case_select, "greedy": case_greedy, "union": case_union, "bitprobe": case_bitprobe}
+KINDS = {"peek": case_peek, "pointer": case_pointer, "select": case_select, "greedy": case_greedy, "union": case_union, "bitprobe": case_bitprobe, "select-foreign": case_select_foreign}
 
 
 LAST = [None]
@@ -501,6 +597,9 @@ def run(ctx):
         jobs.append(("union", tuple(trip.choice(names) for _ in range(k)), trip.random()))
     for bi, br in enumerate(bitprobe_recipes()):
         jobs.append(("bitprobe", bi, br))
+    for f in ("zlib", "lookup", "arity", "lambda"):
+        for n in ("byte", "u16", "cstr", "struct", "varint", "bytes3"):
+            jobs.append(("select-foreign", f, n))
     if ctx.index == 0:
         ctx.count("combinator_instances", len(jobs))
     for i, job in enumerate(jobs):
@@ -528,8 +627,13 @@ def run(ctx):
                 blob = b"\x10\x11\x12" + c + b"\x20\x21" + c[:max(0, len(c) - 1)]
                 for target in (0, 3, 4, len(blob) - len(c) + 1, -len(c) + 1 - 0, -(len(c) - 1 + 2 + len(c)), -1, -len(blob)):
                     for start in (0, 1, 5):
-                        for form in ("const", "ctx", "aux"):
+                        for form in ("const", "ctx", "aux", "region"):
                             run_case(ctx, {"kind": "pointer", "member": job[1], "data": tag(blob), "target": target, "offset": start, "form": form})
+        elif kind == "select-foreign":
+            ins = inputs_for([job[2]], rng) + [b"\x05junk!", b"\x03abc", b"\x00", b"\x07\x01\x02", b"\x09\x09\x09\x09", b"\x02x\x9c\x01", bytes([8]) + __import__("zlib").compress(b"")]
+            for data in ins:
+                for off in (0, 2):
+                    run_case(ctx, {"kind": "select-foreign", "first": job[1], "second": job[2], "data": tag(data), "offset": off})
         elif kind == "bitprobe":
             ins = [bytes([a]) for a in range(256)] + [bytes([a, b]) for a in range(0, 256, 17) for b in (0, 0x5a, 0xff)] + [bytes(rng.getrandbits(8) for _ in range(L)) for L in (3, 3, 4, 4, 5, 6) for _ in range(ctx.pick(4, 40))] + [b""]
             for data in ins:
@@ -553,6 +657,7 @@ def run(ctx):
             pfs = [None, 0, len(ms) - 1]
             if namedidx:
                 pfs += [members[namedidx[-1]][0], ["ctx", members[namedidx[0]][0]], ["ctx", namedidx[0]]]
+            pfs += [["ctx", None]]            # a selector expression that yields None: "select nothing", end at the start
             base = b"".join(max((CANON[m][0] for m in ms), key=len) for _ in range(1))
             datas = [CANON[ms[0]][0] + b"\x01\x02\x03\x04\x05", b"\x01\x05\x01\x02\x07AB\x00\x01\x02", b"AB\x01\x03\x00\x00\x07", b"\x02\x06\x00\x01\x02\x03\x04\x05", b"\x07\x01\x00\x00\x01\x02", b"\x03abc\x00\x01\x02\x03"]
             for data in datas:
